@@ -132,6 +132,7 @@ func depthOf(v any) int {
 func wrap(args []string) {
 	fs := flag.NewFlagSet("wrap", flag.ExitOnError)
 	all := fs.Bool("all", false, "every context for every literal (default: bare + one rotating context)")
+	nctx := fs.Int("ctx", 1, "number of rotating contexts per literal")
 	fs.Parse(args)
 	out := bufio.NewWriterSize(os.Stdout, 1<<20)
 	defer out.Flush()
@@ -166,7 +167,9 @@ func wrap(args []string) {
 				emit(c)
 			}
 		} else {
-			emit(ctxs[n%len(ctxs)])
+			for k := 0; k < *nctx; k++ {
+				emit(ctxs[(n+k)%len(ctxs)])
+			}
 		}
 		n++
 	})
